@@ -4,6 +4,7 @@ import (
 	"context"
 	"errors"
 	"fmt"
+	"github.com/thushan/olla/internal/verifhook"
 	"net/http"
 	"time"
 
@@ -61,6 +62,7 @@ func (s *Service) proxyToSingleEndpoint(ctx context.Context, w http.ResponseWrit
 			panic(rec)
 		}
 	}()
+	verifhook.Point("proxy.engine", endpoint.Name)
 
 	// Check circuit breaker first
 	cb := s.GetCircuitBreaker(endpoint.Name)
